@@ -10,7 +10,23 @@ fn __setup_noop() {}
 #[cfg(kani)]
 mod common;
 #[cfg(kani)]
+mod recorder;
+#[cfg(kani)]
+mod vs_ops;
+#[cfg(kani)]
 mod c01;
+#[cfg(kani)]
+mod c04;
+#[cfg(kani)]
+mod c05;
+#[cfg(kani)]
+mod trace;
+#[cfg(kani)]
+mod c06;
+#[cfg(kani)]
+mod c09;
+#[cfg(kani)]
+mod c16;
 #[cfg(kani)]
 mod c19;
 #[cfg(kani)]
